@@ -2445,6 +2445,20 @@ func (s *Store) ensureCheckTxn(tx WriteTxn, idx uint64, preserveIndexes bool, hc
 				err = updateAllServiceIndexesOfNode(tx, idx, existingCheck.Node, &existingCheck.EnterpriseMeta, existingCheck.PeerName)
 			} else {
 				err = catalogUpdateServiceIndexes(tx, idx, existingCheck.ServiceName, &existingCheck.EnterpriseMeta, existingCheck.PeerName)
+				// The check row keeps the name its service had when the check was written;
+				// the health view that loses the check is the one of the service's current name.
+				if err == nil {
+					var oldSvc interface{}
+					oldSvc, err = tx.First(tableServices, indexID, NodeServiceQuery{
+						EnterpriseMeta: existingCheck.EnterpriseMeta,
+						Node:           existingCheck.Node,
+						Service:        existingCheck.ServiceID,
+						PeerName:       existingCheck.PeerName,
+					})
+					if sn, ok := oldSvc.(*structs.ServiceNode); err == nil && ok && sn.ServiceName != existingCheck.ServiceName {
+						err = catalogUpdateServiceIndexes(tx, idx, sn.ServiceName, &sn.EnterpriseMeta, sn.PeerName)
+					}
+				}
 			}
 			if err != nil {
 				return err
